@@ -127,10 +127,11 @@ def run_case(run, e2, harnesses, case):
     app = App()
     stream = bytes.fromhex(case["stream"])
     mode = case["mode"]
+    peer = {"unix": "", "unixb": b"", "tcp6": ("::1", 50001, 0, 0)}.get(case.get("peer"), ("127.0.0.1", 50000))
     out = h.connection(stream, app, mode="hold" if mode == "hold" else mode, partial_read=case.get("partial_read", 0),
-                       timeout=3.0)
+                       timeout=3.0, peer=peer)
     papp = App()
-    probe = h.connection(CANON, papp, timeout=3.0)
+    probe = h.connection(CANON, papp, timeout=3.0, peer=peer)
     v = judge(case, out, app, probe)
     if out["hung"] or probe["hung"]:
         # a loop that is still running owns harness state: start the next case from a fresh worker object
@@ -146,6 +147,7 @@ def run_case(run, e2, harnesses, case):
     if not out["received"] and mode in ("halfclose", "hold"):
         run.count("silent_closes_seen")
     run.count("mode/" + mode)
+    run.count("peer/" + str(case.get("peer", "tcp")))
     run.count("liveness_probes")
     return v, out
 
@@ -195,7 +197,8 @@ def shard(sh):
                         if cutp % 5 == sh["seed"] % 5:
                             modes.append("close_pending")
                         for mode in modes:
-                            one({"stream": pre.hex(), "mode": mode, "kind": kind, "proxy": proxy, "partial_read": 7})
+                            one({"stream": pre.hex(), "mode": mode, "kind": kind, "proxy": proxy, "partial_read": 7,
+                                 "peer": ["tcp", "unix", "tcp", "tcp6"][(cutp + len(base)) % 4]})
             run.sample({"class": "prefix enumeration", "requests": len(allreq[sh["sub"]::sh["of"]]),
                         "example": hexs((allreq[sh["sub"]][0] if sh["sub"] < len(allreq) else b"")[:120])}, cap=1)
             run.extra_cov["prefix_enumeration_complete"] = True
@@ -217,7 +220,8 @@ def shard(sh):
                     # the threaded worker leaves an already-buffered pipelined request unprocessed until new bytes
                     # arrive or the keep-alive timer fires (2 s): nothing wrong for C05, just slow - half-close instead
                     mode = "halfclose"
-                case = {"stream": s.hex(), "mode": mode, "kind": kind, "partial_read": rng.choice([1, 20, 500])}
+                case = {"stream": s.hex(), "mode": mode, "kind": kind, "partial_read": rng.choice([1, 20, 500]),
+                        "peer": rng.choice(["tcp", "tcp", "unix", "unixb", "tcp6"])}
                 one(case)
                 if k < 1:
                     run.sample({"class": "hostile grammar", "input": hexs(s[:300]), "mode": mode})
@@ -237,7 +241,8 @@ def shard(sh):
                 else:
                     s = gen.mutate(rng, rng.choice(fx), rng.randint(1, 4))
                 case = {"stream": s.hex(), "mode": rng.choice(["halfclose", "halfclose", "close", "close_pending"]),
-                        "kind": rng.choice(e2.KINDS), "partial_read": rng.choice([1, 20, 500])}
+                        "kind": rng.choice(e2.KINDS), "partial_read": rng.choice([1, 20, 500]),
+                        "peer": rng.choice(["tcp", "tcp", "unix", "unixb", "tcp6"])}
                 one(case)
                 if k < 1:
                     run.sample({"class": "random/mutated", "input": hexs(s[:200]), "mode": case["mode"]})
@@ -250,7 +255,7 @@ def shard(sh):
 def main(tier, seed):
     run = Run(PROP, tier, seed, "fault_enumeration", RULE)
     run.require("ref_rejected_inputs", "truncated_inputs", "error_replies_seen", "silent_closes_seen", "mode/halfclose",
-                "mode/hold", "mode/close", "mode/close_pending", "liveness_probes", "fd_checks")
+                "mode/hold", "mode/close", "mode/close_pending", "liveness_probes", "fd_checks", "peer/unix", "peer/tcp", "peer/tcp6")
     q = tier == "quick"
     shards = [{"kind": "prefix", "sub": i, "of": 22, "seed": seed, "tier": tier} for i in range(22)]
     shards += [{"kind": "hostile", "n": 1200 if q else 20000, "sub": i, "seed": seed, "tier": tier} for i in range(12 if q else 32)]
